@@ -7,6 +7,7 @@
 mod c12;
 mod c15;
 mod c17;
+mod c18;
 mod rng;
 
 use std::io::{BufRead, BufWriter, Write};
@@ -27,6 +28,7 @@ pub fn exec_line(line: &str, out: &mut Out) {
         "c15dec" | "c15rt" => c15::exec(line, out),
         "c12cmp" | "c12ch" | "c12smt" => c12::exec(line, out),
         "c17" => c17::exec(line, out),
+        "c18" => c18::exec(line, out),
         _ => {
             writeln!(out, "# unknown input line: {line}").unwrap();
         }
@@ -71,6 +73,7 @@ fn main() {
                 "c15" => c15::generate(&opts, &mut out),
                 "c12" => c12::generate(&opts, &mut out),
                 "c17" => c17::generate(&opts, &mut out),
+                "c18" => c18::generate(&opts, &mut out),
                 other => {
                     eprintln!("unknown profile {other}");
                     std::process::exit(2);
